@@ -66,6 +66,8 @@ OtherClass ==
      template_raises |-> "grey", template_undefined |-> "grey", template_garbles_expression |-> "grey", dot_license_is_directory |-> "grey",
      licenses_same_identifier |-> "invalid",     \* LICENSES/MIT.txt next to LICENSES/MIT.md: a conflict of the project's set-up
      two_files_fail_annotate |-> "valid", three_files_fail_annotate |-> "valid",   \* nothing wrong with the configuration
+     gitmodules_empty_path |-> "valid", gitmodules_not_utf8 |-> "valid",           \* odd bytes in what Git reports: not a
+     ignored_name_not_utf8 |-> "valid", covered_name_not_utf8 |-> "valid",         \* configuration error, never a traceback
      repository_test |-> "grey" ]     \* inputs of the repository's own tests: only the exit-status discipline is demanded
 
 (* the requirement on one observed run *)
